@@ -27,7 +27,7 @@ theorem openFile_ok (s : St) (n : FName) (now : Nat) :
   unfold openFile
   cases s.cfg.symlink <;> simp [hit, noFaults]
 
-/-- what `mountNext` does once the new infix is chosen (no faults, no cleanup) -/
+/-- what `mountNextCore` does once the new infix is chosen (no faults, no cleanup) -/
 def rotTail (s : St) (a : Active) (i : Infix) (now : Nat) : St × Active × Bool :=
   let n : FName := ⟨some i, false⟩
   let s1 := (openFile s n now noFaults 0).1
@@ -42,22 +42,28 @@ theorem mountNext_skip (s : St) (a : Active) (r : RotCfg) (force : Bool) (now : 
   unfold mountNext
   simp [h]
 
-theorem mountNext_nD (s : St) (a : Active) (r : RotCfg) (force : Bool) (now : Nat)
+theorem mountNextCore_skip (s : St) (a : Active) (r : RotCfg) (force : Bool) (now : Nat) (fl : Faults)
+    (h : (force || rotationNecessary r a now) = false) :
+    mountNextCore s a r force now fl = (s, a, false) := by
+  unfold mountNextCore
+  simp [h]
+
+theorem mountNextCore_nD (s : St) (a : Active) (r : RotCfg) (force : Bool) (now : Nat)
     (hn : r.naming = .numbersDirect) (hc : r.cleanup = none)
     (h : (force || rotationNecessary r a now) = true) :
-    mountNext s a r force now noFaults =
+    mountNextCore s a r force now noFaults =
       rotTail s { a with idx := a.idx + 1 } (.num (a.idx + 1)) now := by
-  unfold mountNext
+  unfold mountNextCore
   simp only [h, hn]
   rw [openFile_ok]
   simp [rotTail, flushAct, cleanup, hc]
 
-theorem mountNext_tD (s : St) (a : Active) (r : RotCfg) (force : Bool) (now : Nat)
+theorem mountNextCore_tD (s : St) (a : Active) (r : RotCfg) (force : Bool) (now : Nat)
     (hn : r.naming = .timestampsDirect) (hc : r.cleanup = none)
     (h : (force || rotationNecessary r a now) = true) :
-    mountNext s a r force now noFaults =
+    mountNextCore s a r force now noFaults =
       rotTail s { a with stamp := now } (collisionFree s.dir now) now := by
-  unfold mountNext
+  unfold mountNextCore
   simp only [h, hn]
   rw [openFile_ok]
   simp [rotTail, flushAct, cleanup, hc]
@@ -300,21 +306,21 @@ theorem rotationNecessary_eq (r : RotCfg) (act : Active) (a : Abs) (now : Nat)
   rw [hs, hc]
   cases r.maxSize <;> cases r.age <;> rfl
 
-theorem mountNext_inv (s : St) (act : Active) (a : Abs) (r : RotCfg) (force : Bool)
+theorem mountNextCore_inv (s : St) (act : Active) (a : Abs) (r : RotCfg) (force : Bool)
     (now lo : Nat) (hB : r.naming = .numbersDirect ∨ r.naming = .timestampsDirect)
     (hc : r.cleanup = none) (h : ActInv s.cfg.cap s.dir act a) (hn : NamingInv r.naming lo act)
     (hlo : lo ≤ now) :
-    (mountNext s act r force now noFaults).1.cfg = s.cfg ∧
-    (mountNext s act r force now noFaults).2.2 = false ∧
-    ActInv s.cfg.cap (mountNext s act r force now noFaults).1.dir
-      (mountNext s act r force now noFaults).2.1
+    (mountNextCore s act r force now noFaults).1.cfg = s.cfg ∧
+    (mountNextCore s act r force now noFaults).2.2 = false ∧
+    ActInv s.cfg.cap (mountNextCore s act r force now noFaults).1.dir
+      (mountNextCore s act r force now noFaults).2.1
       (if (force || absNecessary r a now) = true then a.rotate now else a) ∧
-    NamingInv r.naming now (mountNext s act r force now noFaults).2.1 := by
+    NamingInv r.naming now (mountNextCore s act r force now noFaults).2.1 := by
   have hnec := rotationNecessary_eq r act a now h.size h.created
   by_cases hrot : (force || absNecessary r a now) = true
   · rw [if_pos hrot]
     rcases hB with hnm | hnm
-    · rw [mountNext_nD s act r force now hnm hc (by rw [hnec]; exact hrot)]
+    · rw [mountNextCore_nD s act r force now hnm hc (by rw [hnec]; exact hrot)]
       rw [hnm] at hn ⊢
       simp only [NamingInv] at hn
       have h1 : ActInv s.cfg.cap s.dir { act with idx := act.idx + 1 } a :=
@@ -331,7 +337,7 @@ theorem mountNext_inv (s : St) (act : Active) (a : Abs) (r : RotCfg) (force : Bo
       obtain ⟨pre, f, hd, _, _⟩ := h.dir
       obtain ⟨r', hcf, hkey⟩ := collisionFree_key hd now k r0 f
         (by rw [← hh0]; simp) (Nat.le_trans hk hlo)
-      rw [mountNext_tD s act r force now hnm hc (by rw [hnec]; exact hrot), hcf]
+      rw [mountNextCore_tD s act r force now hnm hc (by rw [hnec]; exact hrot), hcf]
       have h1 : ActInv s.cfg.cap s.dir { act with stamp := now } a :=
         ⟨h.started, h.dir, h.unbuf, h.direct, h.size, h.created⟩
       obtain ⟨hcfg, hh, hidx, hf, hinv⟩ :=
@@ -339,6 +345,29 @@ theorem mountNext_inv (s : St) (act : Active) (a : Abs) (r : RotCfg) (force : Bo
           (by show keyLt (nkey act.handle) _ = true
               rw [hh0]; exact hkey)
       exact ⟨hcfg, hf, hinv, now, r', hh, Nat.le_refl _⟩
+  · rw [if_neg hrot]
+    rw [mountNextCore_skip s act r force now noFaults (by rw [hnec]; simpa using hrot)]
+    exact ⟨rfl, rfl, h, hn.mono hlo⟩
+
+/-- `mountNext`: the flush preserves the invariant, the rotation proper follows -/
+theorem mountNext_inv (s : St) (act : Active) (a : Abs) (r : RotCfg) (force : Bool)
+    (now lo : Nat) (hB : r.naming = .numbersDirect ∨ r.naming = .timestampsDirect)
+    (hc : r.cleanup = none) (h : ActInv s.cfg.cap s.dir act a) (hn : NamingInv r.naming lo act)
+    (hlo : lo ≤ now) :
+    (mountNext s act r force now noFaults).1.cfg = s.cfg ∧
+    (mountNext s act r force now noFaults).2.2 = false ∧
+    ActInv s.cfg.cap (mountNext s act r force now noFaults).1.dir
+      (mountNext s act r force now noFaults).2.1
+      (if (force || absNecessary r a now) = true then a.rotate now else a) ∧
+    NamingInv r.naming now (mountNext s act r force now noFaults).2.1 := by
+  have hnec := rotationNecessary_eq r act a now h.size h.created
+  by_cases hrot : (force || absNecessary r a now) = true
+  · rw [if_pos hrot, mountNext_due s act r force now noFaults (by rw [hnec]; exact hrot)]
+    obtain ⟨f1, f2, f3, f4⟩ := flushAct_inv s act a h
+    have := mountNextCore_inv (flushAct s act).1 (flushAct s act).2 a r true now lo hB hc
+      (by rw [f1]; exact f4) (hn.congr f2 f3) hlo
+    rw [f1] at this
+    simpa using this
   · rw [if_neg hrot]
     rw [mountNext_skip s act r force now noFaults (by rw [hnec]; simpa using hrot)]
     exact ⟨rfl, rfl, h, hn.mono hlo⟩
